@@ -1,6 +1,9 @@
 import Rare.Base.Proto
 import Rare.Model.C06
 import Rare.Model.C06Tree
+import Rare.Model.C06ErrTrace
+import Rare.Drv.C04
+import Rare.Model.C06Read
 /-!
 Line protocol of C06.
 
@@ -9,6 +12,14 @@ Line protocol of C06.
 * `glob <recursive> <args> <fs>` – what `dirwalk.GlobExpand` sends.
 * `open <gunzip> <names> <files>` – `batchers.OpenFilesToChan` over the names: error count and lines.
 * `exit <readErrors> <hasAgg> <parseErrors> <matched>` – `DetermineErrorState`.
+* `rdfault <data> <script> <batch>` – a reader that fails in the middle (`batchers.OpenReaderToChan` over a scripted reader:
+  per `Read` call a byte count and `n`o error / `e`OF / `f`ailure, possibly together with data): the error count and the
+  lines handed on, from the C04 scanner model; they must be what the C06 abstraction `runStream` says.
+* `errsched <gunzip> <names> <files> <readers> <batch>` – `OpenFilesToChan` under a forced schedule (the logger's stderr is a
+  full pipe): the error count seen at the moment the batch channel is closed.
+* `errtrace <blob>` – the event log of a real `OpenFilesToChan` run: accepted iff no goroutine counts an error after it
+  released its reader slot and every release precedes `wg.Wait()` returning (`Rare/Model/C06ErrTrace.lean`); answer: the
+  model's error count.  blob = `gz/names/files/trace` with `_` for `;` and `~` for `,`; trace = `g.kind.src_…`.
 * `gzhdr <content>` – `gzip.NewReader` on these bytes: `ok <offset of the compressed data>` or `err eof|ueof|header`
   (`Rare/Model/C06Gzip.lean`, the model of `readHeader`).
 
@@ -136,6 +147,15 @@ def kindStr : Option Node → String
   | some (.dir _) => "d"
   | some (.link _) => "l"
 
+def parseErrTrace (s : String) : Option (List Rare.C06.ErrTrace.TEv) :=
+  if s = "." then some [] else
+  (s.splitOn "_").mapM fun e =>
+    match e.splitOn "." with
+    | [g, k, src] => do
+      let g ← nat? g
+      pure ⟨g, k, (nat? src).getD 1000000000⟩
+    | _ => none
+
 def handle : List String → String
   | ["match", pat, name] =>
     match Hex.dec pat, Hex.dec name with
@@ -212,6 +232,37 @@ def handle : List String → String
       let out := joinOrDot ";" (sortStrs ((srcs.flatMap (outLines .all)).map Hex.enc))
       s!"ok errs={errs} out={out}"
     | _, _, _ => "bad-args"
+  | ["rdfault", d, sc, _batch] =>
+    match Hex.dec d, Rare.Drv.C04.parseScript sc with
+    | some data, some script =>
+      let fuel := data.length + script.length + 3
+      let r := Rare.C04.Imm.scanAll fuel fuel (Rare.C04.Imm.init (128 * 1024) ⟨data, script⟩)
+      let st := r.2.2
+      -- the C06 abstraction of the same run
+      let a := runStream stdinName st.delivered (Rare.C04.failsFirst script)
+      if a.errs != st.errs || a.lines != r.1.map (·.2) then "model-inconsistent"
+      else s!"ok errs={st.errs} lines={hexList (r.1.map (·.2))}"
+    | _, _ => "bad-args"
+  | ["errsched", gz, names, files, _readers, _batch] =>
+    match bool? gz, decHexList names, parseFiles files with
+    | some gz, some names, some files =>
+      let srcs := names.map fun p => runFile gz p (mkFiles files p)
+      s!"ok errs={(srcs.map (·.errs)).sum}"
+    | _, _, _ => "bad-args"
+  | ["errtrace", blob] =>
+    match blob.splitOn "/" with
+    | [gz, names, files, trace] =>
+      match bool? gz, decHexList (names.replace "_" ";"), parseFiles (files.replace "~" ","), parseErrTrace trace with
+      | some gz, some names, some files, some tr =>
+        let srcs := names.map fun p => runFile gz p (mkFiles files p)
+        let errs := (srcs.map (·.errs)).sum
+        let v := Rare.C06.ErrTrace.verdict tr
+        if v != "ok" then s!"reject {v}"
+        else if Rare.C06.ErrTrace.countKind tr "se" != errs then s!"reject errors-logged={Rare.C06.ErrTrace.countKind tr "se"} expected={errs}"
+        else if Rare.C06.ErrTrace.countKind tr "rl" != names.length then s!"reject releases={Rare.C06.ErrTrace.countKind tr "rl"} sources={names.length}"
+        else s!"ok errs={errs}"
+      | _, _, _, _ => "bad-args"
+    | _ => "bad-args"
   | ["gzhdr", c] =>
     match Hex.dec c with
     | some c =>
